@@ -13,6 +13,7 @@ TInit == Init /\ t \in 1..Len(Traces) /\ l = 1
 Agrees(f, proj) == \A o \in Oid : (o \in DOMAIN proj => f[o] = proj[o]) /\ (o \notin DOMAIN proj => f[o] = 0 \/ TRUE)
 Exact(f, proj) == \A o \in Oid : IF o \in DOMAIN proj THEN f[o] = proj[o] ELSE TRUE
 
+OidSet(seq) == {seq[i] : i \in 1..Len(seq)}
 TOpenNew    == Is("Open") /\ E.reused = FALSE /\ OpenNew(E.conn)
 TOpenPooled == Is("Open") /\ E.reused = TRUE /\ OpenPooled(E.conn)
 TClose      == Is("Close") /\ Close(E.conn)
@@ -29,7 +30,6 @@ TReadCurrent == Is("ReadCurrent") /\ ReadCurrent(E.conn, E.oid)
 \* a savepoint flushes modified objects to the connection's private TmpStore: nothing shared changes
 TSavepoint  == Is("Savepoint") /\ pc[E.conn] = "txn" /\ UNCHANGED vars
 TBeginVote  == Is("BeginVote") /\ BeginVote(E.conn) /\ (E.ok <=> pc'[E.conn] = "voted")
-OidSet(seq) == {seq[i] : i \in 1..Len(seq)}
 TUndoVote   == Is("UndoVote") /\ UndoVote(E.conn, OidSet(E.oids), E.ok)
 \* an undo transaction that failed (UndoError) or was aborted leaves no trace
 TUndoAbort  == Is("UndoAbort") /\ pc[E.conn] = "new" /\ UNCHANGED vars
@@ -41,8 +41,9 @@ TPublish    == Is("Publish") /\ Publish(E.conn) /\ sLtid' = E.tid
 TAbort      == Is("AbortTxn") /\ (AbortTxn(E.conn) \/ (pc[E.conn] \in {"idle", "closed"} /\ UNCHANGED vars))
 \* tpc_abort: of a voted transaction (another participant failed), or the second half of a failed commit (stutter)
 TTpcAbort   == Is("TpcAbort") /\ (AbortVoted(E.conn) \/ (pc[E.conn] # "voted" /\ UNCHANGED vars))
+TRollback   == Is("Rollback") /\ Rollback(E.conn, OidSet(E.keep))
 TNext == TOpenNew \/ TOpenPooled \/ TClose \/ TPollRead \/ TPollApply \/ TRead \/ TReadEvict \/ TWrite \/ TReadCurrent \/ TSavepoint \/ TBeginVote
-         \/ TUndoVote \/ TUndoAbort \/ TFinish \/ TDeliver \/ TPublish \/ TAbort \/ TTpcAbort
+         \/ TUndoVote \/ TUndoAbort \/ TFinish \/ TDeliver \/ TPublish \/ TAbort \/ TTpcAbort \/ TRollback
 Accepted == l = Len(Tr) + 1
 Report == (Accepted => PrintT(<<"ACCEPT", t>>)) /\ (IOEnv.TRACE_VERBOSE = "1" => PrintT(<<"AT", t, l>>))
 =============================================================================
